@@ -7,14 +7,26 @@ package main
 
 import (
 	"fmt"
+	"os"
+	"os/exec"
 	"sort"
+	"strconv"
 	"strings"
+	"time"
 
 	"diagonal.works/b6"
 	"diagonal.works/b6/ingest"
+	"diagonal.works/b6/ingest/compact"
 	"github.com/golang/geo/s2"
 	"verifharness/hx"
 )
+
+// what a case writes: *hx.Ctx in the parent, a recorder in the child processes that build compact worlds
+type emitter interface {
+	Op(op string, answer string)
+	Note(key string)
+	NonTrivial()
+}
 
 // ---- universe --------------------------------------------------------------------------------
 
@@ -142,7 +154,7 @@ func closure(chosen map[int]bool) []int {
 	return order
 }
 
-func basicWorld(r *hx.Rand, c *hx.Ctx, density int, maxTags int) (b6.World, []int) {
+func basicWorld(r *hx.Rand, c emitter, density int, maxTags int) (b6.World, []int) {
 	chosen := map[int]bool{}
 	for i := range slots {
 		if r.Chance(density, 4) {
@@ -166,7 +178,7 @@ func basicWorld(r *hx.Rand, c *hx.Ctx, density int, maxTags int) (b6.World, []in
 }
 
 // random edit history on a mutable world; returns the number of edits that succeeded
-func edit(r *hx.Rand, c *hx.Ctx, w ingest.MutableWorld, n int) int {
+func edit(r *hx.Rand, c emitter, w ingest.MutableWorld, n int) int {
 	done := 0
 	for k := 0; k < n; k++ {
 		i := r.Intn(len(slots))
@@ -386,8 +398,7 @@ func find(w b6.World, q b6.Query) string {
 	})
 }
 
-func dumpAndQuery(c *hx.Ctx, kind string, w b6.World, nq int) {
-	r := c.Rand
+func dumpAndQuery(c emitter, r *hx.Rand, kind string, w b6.World, nq int) {
 	c.Op("world "+kind, "ok")
 	var feats []b6.Feature
 	bare := 0
@@ -488,13 +499,197 @@ func mergeCase(c *hx.Ctx) {
 	c.Note(fmt.Sprintf("merge:streams=%d", k))
 }
 
+// ---- compact worlds (in child processes) ---------------------------------------------------------
+//
+// compact.Build allocates large scratch buffers on every pass; in a long-lived process the collector makes each
+// build take seconds. The compact cases of a run are therefore generated in child processes (collector off), a
+// block of case numbers per child; the child regenerates each case from (seed, case number) and sends back its
+// transcript, which the parent writes out unchanged.
+
+const compactEvery = 25 // case numbers ≡ compactAt (mod compactEvery) are compact cases
+const compactAt = 7
+const compactBlock = 12
+
+func caseRand(seed uint64, no int) *hx.Rand { // as hx.Main derives it
+	return hx.NewRand(seed*0x9e3779b97f4a7c15 ^ uint64(no)*0xd1342543de82ef95 ^ 0x5851f42d4c957f2d)
+}
+
+type recorder struct{ sb *strings.Builder }
+
+func (r recorder) Op(op string, answer string) { fmt.Fprintf(r.sb, "O\t%s\t%s\n", op, answer) }
+func (r recorder) Note(key string)             { fmt.Fprintf(r.sb, "N\t%s\n", key) }
+func (r recorder) NonTrivial()                 { fmt.Fprintf(r.sb, "T\n") }
+
+func compactData(feats []ingest.Feature) ([]byte, error) {
+	o := compact.Options{Goroutines: 1, PointsScratchOutputType: compact.OutputTypeMemory}
+	return compact.BuildInMemory(ingest.MemoryFeatureSource(feats), &o)
+}
+
+// one compact case: a single file, or 2-3 files (each closed under references; a feature present in several
+// files is identical in all of them) merged into one world
+func compactCase(em emitter, r *hx.Rand, no int) {
+	tags := make([][]b6.Tag, len(slots))
+	for i := range slots {
+		tags[i] = randTags(r, 3)
+		if slots[i].id.Type == b6.FeatureTypePoint && r.Chance(1, 4) {
+			tags[i] = nil
+		}
+	}
+	nfiles := 1
+	if (no/compactEvery)%2 == 1 {
+		nfiles = 2 + r.Intn(2)
+	}
+	w := compact.NewWorld()
+	for k := 0; k < nfiles; k++ {
+		chosen := map[int]bool{}
+		for i := range slots {
+			if slots[i].id.Type != b6.FeatureTypeCollection && r.Chance(2, 1+nfiles) {
+				chosen[i] = true
+			}
+		}
+		var feats []ingest.Feature
+		for _, i := range closure(chosen) {
+			feats = append(feats, build(i, tags[i]))
+		}
+		data, err := compactData(feats)
+		if err == nil {
+			err = w.Merge(data)
+		}
+		if err != nil {
+			em.Op("world compact", "err")
+			return
+		}
+	}
+	kind := "compact"
+	if nfiles > 1 {
+		kind = "compact-merged"
+		em.Note(fmt.Sprintf("compact:files=%d", nfiles))
+	}
+	dumpAndQuery(em, r, kind, w, 3+r.Intn(6))
+}
+
+func compactChild(arg string) string {
+	f := strings.Fields(arg)
+	seed, _ := strconv.ParseUint(f[0], 10, 64)
+	var sb strings.Builder
+	for _, a := range f[1:] {
+		no, _ := strconv.Atoi(a)
+		fmt.Fprintf(&sb, "C\t%d\n", no)
+		ans := hx.Recover(func() string { compactCase(recorder{&sb}, caseRand(seed, no), no); return "ok" })
+		if ans != "ok" {
+			fmt.Fprintf(&sb, "O\tworld compact\tpanic\n")
+		}
+	}
+	return sb.String()
+}
+
+func spawn(name, arg string, timeout time.Duration) string {
+	self, _ := os.Executable()
+	cmd := exec.Command(self)
+	cmd.Env = append(os.Environ(), "HX_CHILD="+name, "GOGC=off", "GOMAXPROCS=2")
+	cmd.Stdin = strings.NewReader(arg)
+	var sb strings.Builder
+	cmd.Stdout = &sb
+	if err := cmd.Start(); err != nil {
+		return "crash"
+	}
+	done := make(chan error, 1)
+	go func() { done <- cmd.Wait() }()
+	select {
+	case <-done:
+	case <-time.After(timeout):
+		cmd.Process.Kill()
+		<-done
+		return "hang"
+	}
+	out := sb.String()
+	if i := strings.LastIndex(out, "HXRESULT "); i >= 0 {
+		return out[i+len("HXRESULT "):]
+	}
+	return "crash"
+}
+
+// blocks of compact cases are built by up to `compactAhead` children at a time, started ahead of need
+const compactAhead = 4
+
+var compactBlocks = map[int]chan map[int][]string{} // block number -> its transcripts by case number
+
+func blockNos(b int) []int {
+	var nos []int
+	for k := 0; k < compactBlock; k++ {
+		nos = append(nos, compactAt+(b*compactBlock+k)*compactEvery)
+	}
+	return nos
+}
+
+func startBlock(seed uint64, b int) {
+	if _, ok := compactBlocks[b]; ok {
+		return
+	}
+	ch := make(chan map[int][]string, 1)
+	compactBlocks[b] = ch
+	go func() {
+		nos := blockNos(b)
+		args := []string{strconv.FormatUint(seed, 10)}
+		for _, no := range nos {
+			args = append(args, strconv.Itoa(no))
+		}
+		out := spawn("compact", strings.Join(args, " "), 300*time.Second)
+		res := map[int][]string{}
+		if out == "hang" || out == "crash" {
+			for _, no := range nos {
+				res[no] = []string{"O\tworld compact\t" + out}
+			}
+		} else {
+			cur := -1
+			for _, line := range strings.Split(out, "\n") {
+				if strings.HasPrefix(line, "C\t") {
+					cur, _ = strconv.Atoi(line[2:])
+					res[cur] = []string{}
+				} else if line != "" && cur >= 0 {
+					res[cur] = append(res[cur], line)
+				}
+			}
+		}
+		ch <- res
+	}()
+}
+
+var compactDone = map[int]map[int][]string{}
+
+func compactTranscript(c *hx.Ctx) []string {
+	b := (c.CaseNo - compactAt) / compactEvery / compactBlock
+	for a := 0; a < compactAhead; a++ {
+		startBlock(c.Seed, b+a)
+	}
+	if _, ok := compactDone[b]; !ok {
+		compactDone[b] = <-compactBlocks[b]
+		delete(compactDone, b-1)
+	}
+	return compactDone[b][c.CaseNo]
+}
+
 func oneCase(c *hx.Ctx) {
+	if c.CaseNo%compactEvery == compactAt {
+		for _, line := range compactTranscript(c) {
+			f := strings.Split(line, "\t")
+			switch f[0] {
+			case "O":
+				c.Op(f[1], f[2])
+			case "N":
+				c.Note(f[1])
+			case "T":
+				c.NonTrivial()
+			}
+		}
+		return
+	}
 	r := c.Rand
 	nq := 3 + r.Intn(6)
 	switch c.CaseNo % 5 {
 	case 0:
 		w, _ := basicWorld(r, c, 3, 4)
-		dumpAndQuery(c, "basic", w, nq)
+		dumpAndQuery(c, r, "basic", w, nq)
 	case 1:
 		m := ingest.NewBasicMutableWorld()
 		chosen := map[int]bool{}
@@ -514,17 +709,17 @@ func oneCase(c *hx.Ctx) {
 		}
 		n := edit(r, c, m, r.Intn(12))
 		c.Note(fmt.Sprintf("edits:%d", n))
-		dumpAndQuery(c, "mutable", m, nq)
+		dumpAndQuery(c, r, "mutable", m, nq)
 	case 2:
 		base, _ := basicWorld(r, c, 2, 3)
 		m := ingest.NewMutableOverlayWorld(base)
 		n := edit(r, c, m, r.Intn(14))
 		c.Note(fmt.Sprintf("edits:%d", n))
-		dumpAndQuery(c, "mutable-overlay", m, nq)
+		dumpAndQuery(c, r, "mutable-overlay", m, nq)
 	case 3:
 		base, _ := basicWorld(r, c, 3, 3)
 		over, _ := basicWorld(r, c, 1, 3)
-		dumpAndQuery(c, "overlay", ingest.NewOverlayWorld(over, base), nq)
+		dumpAndQuery(c, r, "overlay", ingest.NewOverlayWorld(over, base), nq)
 	default:
 		mergeCase(c)
 		mergeCase(c)
@@ -611,11 +806,12 @@ func corpus(c *hx.Ctx) {
 }
 
 func main() {
+	hx.RegisterChild("compact", compactChild)
 	hx.Main(hx.Family{
 		Name: "c03",
-		Rule: "universe of 16 features (7 points, 4 paths, 1 area, 2 relations, 2 collections; namespaces nsa/nsb/nsc; values 0..30 and 2^40+1) with 0-4 random tags from 5 searchable (#amenity #highway #a @lit @name) + 2 plain keys and 7 values (one containing '=', one empty), 1/4 of the points bare; case kinds round-robin: basic world, BasicMutableWorld after 0-11 random AddTag/RemoveTag/AddFeature edits, MutableOverlayWorld over a basic world after 0-13 edits, OverlayWorld of two basic worlds, MergeFeatures over 0-4 random sorted ID streams; per world 3-8 random query trees (depth <= 3) over all/empty/tagged/keyed/typed/and/or: FindFeatures ID list and (half of them) Query.Matches over every feature; non-trivial = a non-empty result of a query containing typed and (and|or) on a world with >= 4 features",
+		Rule: "universe of 16 features (7 points, 4 paths, 1 area, 2 relations, 2 collections; namespaces nsa/nsb/nsc; values 0..30 and 2^40+1) with 0-4 random tags from 5 searchable (#amenity #highway #a @lit @name) + 2 plain keys and 7 values (one containing '=', one empty), 1/4 of the points bare; case kinds round-robin: basic world, BasicMutableWorld after 0-11 random AddTag/RemoveTag/AddFeature edits, MutableOverlayWorld over a basic world after 0-13 edits, OverlayWorld of two basic worlds, MergeFeatures over 0-4 random sorted ID streams; every 25th case (built in child processes) a compact world from one file or merged from 2-3 files (each closed under references, shared features identical); per world 3-8 random query trees (depth <= 3) over all/empty/tagged/keyed/typed/and/or: FindFeatures ID list and (half of them) Query.Matches over every feature; non-trivial = a non-empty result of a query containing typed and (and|or) on a world with >= 4 features",
 		Quick:    2500,
-		Thorough: 60000,
+		Thorough: 40000,
 		Corpus:   corpus,
 		Case:     oneCase,
 	})
